@@ -15,11 +15,19 @@ def main():
         subprocess.run(["git", "-C", "/repo", "worktree", "add", "--detach", "-f", os.path.join(work, "repo"), "HEAD"],
                        check=True, stdout=subprocess.DEVNULL, stderr=subprocess.DEVNULL)
         repo = os.path.join(work, "repo")
+        demos = [os.path.abspath(args[i + 1]) for i, a in enumerate(args) if a == "--demo"]
+        envd = dict(os.environ, PYTHONDONTWRITEBYTECODE="1", PYTHONPATH=repo)
+        for d in demos:
+            r = subprocess.run(["/venv/bin/python", d], cwd=work, env=envd, stdout=subprocess.PIPE, stderr=subprocess.STDOUT, timeout=600)
+            print("DEMO on clean tree: exit=%d %s" % (r.returncode, "(ok)" if r.returncode == 0 else "UNEXPECTED: " + r.stdout.decode()[-300:]))
         r = subprocess.run(["git", "-C", repo, "apply", patch], stdout=subprocess.PIPE, stderr=subprocess.STDOUT)
         if r.returncode:
             print("PATCH DOES NOT APPLY:", r.stdout.decode()[-500:])
             return 2
         env = dict(os.environ, PYTHONDONTWRITEBYTECODE="1")
+        for d in demos:
+            r = subprocess.run(["/venv/bin/python", d], cwd=work, env=envd, stdout=subprocess.PIPE, stderr=subprocess.STDOUT, timeout=600)
+            print("DEMO with the change: exit=%d %s" % (r.returncode, "(fails, as it should)" if r.returncode != 0 else "UNEXPECTED PASS"))
         if run_tests:
             t0 = time.time()
             env2 = dict(env, PYTHONPATH=repo)
